@@ -25,6 +25,7 @@ EXPLANATION = (
     "themselves; (R6) a mapping graph node leaves the inner graph's own bound values out of the inputs of the nested map, so per-item cloning can "
     "never touch them. R6 is decided as a truth table of the executor's comprehension filter over 'key is bound in the inner graph' x 'value is that bound object': exactly the (bound, same object) case may be dropped. R1 also requires that the DEFAULT (copied) class holds signature defaults only and that values bound on a nested graph have a BOUND path of their own; (R7) a DEFAULT-class value is never collected as a broadcast input of a mapping graph node; (R8) effects analysis: the run/map paths and the executors neither write nor mutate attributes of the runner/executor objects (no state survives a run on the runner; the user's cache backend excepted)."
     " R8 also covers the graph: the run/map/execute paths have no write or mutation effect on the graph parameter — followed through call results that alias it ('spec = resolve(graph)' returning graph.inputs) — except the lazy memoisation inside the graph's own properties."
+    " R1 also requires that an input is left out of a nested graph node's collected inputs only on the resolver's own classification (get_value_source(...) == DEFAULT)."
 )
 NOT_DECIDED = "Equality of results across repeated/concurrent runs as such; behaviour of user objects that refuse deepcopy (reported as GraphConfigError by design)."
 
@@ -487,4 +488,5 @@ VARIANTS = [
     Variant("twin-resolver-inverted-test", HP, replace_once("    if source == ValueSource.DEFAULT:\n        return _safe_deepcopy(value, param_name=param)\n\n    # All other sources: return as-is (no copying)\n    return value", "    if source != ValueSource.DEFAULT:\n        return value\n    return _safe_deepcopy(value, param_name=param)"), set()),
     Variant("provided-values-merged-into-spec", "src/hypergraph/runners/_shared/validation.py", replace_once("    merged = {**inputs_spec.bound, **values}", "    merged = inputs_spec.bound\n    merged.update(values)"), {"C18.R8"}),
     Variant("twin-merged-from-dict-copy", "src/hypergraph/runners/_shared/validation.py", replace_once("    merged = {**inputs_spec.bound, **values}", "    merged = dict(inputs_spec.bound)\n    merged.update(values)"), set()),
+    Variant("nested-input-skipped-by-home-made-test", HP, replace_once("            source, _ = get_value_source(param, node, graph, state, provided_values)\n            if source == ValueSource.DEFAULT:\n                continue\n", "            if param not in state.values and param not in provided_values and node.has_signature_default_for(param):\n                continue\n"), {"C18.R1"}),
 ]
